@@ -60,7 +60,7 @@ Definition sym_run (inp : list Z) : list Z :=
   let '(value, l) := pop1 l in
   let '(na, l) := pop1 l in let '(args, l) := popn na l in
   let '(nb, l) := pop1 l in let '(bals, l) := parse_pairs (Z.to_nat nb) l in
-  let blk := mkBlock 0 31337 0 0 (2 ^ 63 - 1) 1 1 in
+  let blk := mkBlock 0 31337 0 0 (2 ^ 63 - 1) 1 1 [] in
   let se := mkSEnv this code (TVar VCaller) (TVar VOrigin) (TVar VValue) (map data_item data)
                    (negb (static =? 0)) 1 blk [] in
   let rho := fun v =>
@@ -114,7 +114,7 @@ Definition sym_run2 (inp : list Z) : list Z :=
   let '(value, l) := pop1 l in
   let '(na, l) := pop1 l in let '(args, l) := popn na l in
   let '(nb, l) := pop1 l in let '(bals, l) := parse_pairs (Z.to_nat nb) l in
-  let blk := mkBlock 0 31337 0 0 (2 ^ 63 - 1) 1 1 in
+  let blk := mkBlock 0 31337 0 0 (2 ^ 63 - 1) 1 1 [] in
   let w := mkSW codes [] [] [] in
   let fr := mkFrame this (sw_get_code w this) (TVar VCaller) (TVar VOrigin) (TVar VValue) (map data_item data)
                     (negb (static =? 0)) 1 blk in
